@@ -736,26 +736,101 @@ def scripted_parse(word, bits: int, fin: int):
     return impl_parse(Scripted(word), None, bits_opts(bits), {'on': True})
 
 
+# token strings longer than the exhaustive scope reaches, aimed at the paths that need history: flag replacement of a leaf /
+# of a block (only right after a plain keyvalue or a closing brace, never twice in a row, same name, same kind), blocks skipped
+# by a disabled flag (nested, followed by a flagged keyvalue), braces on the same line, single_block returns
+# (symbols: 0 STR a, 1 STR b, 2 STR "a\n", 3 NEWLINE, 4 {, 5 }, 6 [on], 7 [off], 8 =)
+DIRECTED_WORDS = [
+    [0, 1, 3, 0, 1, 6, 3], [0, 1, 3, 0, 1, 7, 3], [0, 1, 3, 1, 1, 6, 3], [0, 1, 3, 0, 0, 6, 3], [0, 1, 3, 0, 1, 6, 3, 0, 1, 6, 3],
+    [0, 1, 6, 3, 0, 1, 6, 3], [0, 1, 3, 0, 6, 3, 4, 5], [0, 3, 4, 3, 5, 3, 0, 6, 3, 4, 3, 1, 1, 3, 5, 3],
+    [0, 4, 5, 0, 6, 3, 4, 1, 1, 5], [0, 4, 5, 0, 7, 3, 4, 1, 1, 5], [0, 4, 5, 1, 6, 3, 4, 5], [0, 4, 5, 0, 1, 6, 3],
+    [0, 4, 1, 1, 5, 0, 6, 3, 4, 5, 0, 6, 3, 4, 5], [0, 7, 3, 4, 1, 1, 3, 5, 3, 1, 1, 3], [0, 7, 3, 4, 1, 4, 5, 5, 0, 1, 6, 3],
+    [0, 7, 3, 4, 5, 0, 1, 6, 3], [0, 7, 3, 4, 5, 0, 6, 3, 4, 5], [0, 7, 3, 4, 0, 6, 3, 4, 5, 5, 1, 1], [0, 6, 3, 4, 1, 1, 5, 1, 1],
+    [0, 4, 1, 1, 3, 0, 4, 5, 5, 3], [0, 4, 1, 1, 1, 1, 5], [0, 4, 1, 1, 5, 1, 1, 3], [0, 4, 5, 5], [0, 4, 1, 4, 5], [0, 3, 3, 4, 5],
+    [0, 1, 3, 4, 5], [0, 1, 4, 5], [2, 1, 3, 0, 2, 3], [0, 4, 2, 1, 5], [0, 4, 0, 2, 5], [0, 1, 0, 1, 3, 0, 1, 6, 3],
+    [0, 1, 3, 0, 1, 6, 1, 1], [0, 1, 3, 0, 1, 6], [0, 6, 3, 0, 6, 3, 4, 5], [0, 4, 5, 3, 0, 6, 3, 3, 4, 5], [0, 8, 1, 3, 0, 1],
+    [0, 4, 0, 1, 3, 0, 1, 6, 3, 5, 0, 1, 6, 3], [0, 7, 3, 4, 5, 1, 4, 5], [0, 7, 3, 4, 5, 5], [0, 1, 3, 5, 0, 1, 6, 3],
+]
+
+
+def long_words(seed: int, n: int) -> list:
+    """The directed words, then n generated ones: mostly well-formed token strings (lines `name value`, `name value
+    [flag]`, blocks with the brace on its own line or on the same line, `name [flag]` blocks, nested once or twice, names
+    and values from {a, b}) of which a third get one symbol replaced / inserted / deleted."""
+    rng = random.Random(seed * 104729 + 5)
+    out = [list(w) for w in DIRECTED_WORDS]
+    syms, weights = list(range(9)), [3, 2, 0.3, 3, 1.5, 1.5, 1.2, 0.8, 0.2]
+
+    def items(depth: int, budget: list) -> list:
+        w: list = []
+        for _ in range(rng.randrange(1, 4)):
+            if budget[0] <= 0:
+                break
+            budget[0] -= 1
+            name = rng.choice([0, 0, 1])
+            kind = rng.random()
+            if kind < 0.5 or depth >= 2:
+                w += [name, rng.choice([0, 1, 1])]
+                if rng.random() < 0.45:
+                    w.append(rng.choice([6, 6, 7]))
+                w.append(3)
+            else:
+                w.append(name)
+                if rng.random() < 0.5:
+                    w += [rng.choice([6, 6, 7]), 3]
+                elif rng.random() < 0.6:
+                    w.append(3)
+                w.append(4)
+                if rng.random() < 0.6:
+                    w.append(3)
+                w += items(depth + 1, budget)
+                w.append(5)
+                if rng.random() < 0.7:
+                    w.append(3)
+        return w
+    for _ in range(n):
+        w = items(0, [rng.randrange(2, 6)])
+        if rng.random() < 0.33 and w:
+            i = rng.randrange(len(w))
+            how = rng.random()
+            if how < 0.4:
+                w[i] = rng.choices(syms, weights)[0]
+            elif how < 0.7:
+                w.insert(i, rng.choices(syms, weights)[0])
+            else:
+                del w[i]
+        out.append(w[:24])
+    return out
+
+
 def corr_tokens(ck: Ck) -> None:
-    """Exhaustive small scope at the token level."""
-    # (option bits, ending, max length).  quick: every option vector up to length 3, five vectors (none, defaults,
+    """Exhaustive small scope at the token level, plus directed / random longer token strings."""
+    # (option bits, ending, max length | 'long').  quick: every option vector up to length 3, five vectors (none, defaults,
     # single_line, single_block, all) up to length 4, a tokenizer error as ending under the defaults and single_line;
-    # thorough: every vector up to length 5.
+    # thorough: every vector up to length 5.  'long': the directed words and random words of length 5..10 under every vector.
     if ck.thorough:
         shards = [(bits, 0, 5) for bits in range(16)] + [(2, 1, 5), (6, 1, 5)]
     else:
         shards = [(bits, 0, 4 if bits in (0, 2, 6, 10, 15) else 3) for bits in range(16)] + [(2, 1, 3), (6, 1, 3)]
+    shards += [(bits, 0, 'long') for bits in range(16)] + [(2, 1, 'long')]
+    longw = long_words(ck.seed, ck.budget(250, 2500))
+    lens = [s_[2] for s_ in shards if s_[2] != 'long']
+
+    def words_of(n):
+        return longw if n == 'long' else words(n)
     want = {}
     outcomes: dict = {}
     nwords = 0
     for bits, fin, n in shards:
         tot = 0
-        for w in words(n):
+        for w in words_of(n):
             r = scripted_parse(w, bits, fin)
             tot = (tot + hash63([bits, fin, len(w), *w, *enc_result(r)])) & M63
             nwords += 1
             k = r[0] if r[0] != 'err' else ERR_NAMES.get(r[1], str(r[1]))
             outcomes[k] = outcomes.get(k, 0) + 1
+            if n == 'long':
+                ck.hist('token_long_outcome', k)
         want[(bits, fin, n)] = tot
     ck.count('token_exhaustive_cases', nwords)
     for k, v in sorted(outcomes.items()):
@@ -763,13 +838,22 @@ def corr_tokens(ck: Ck) -> None:
     # two models against the same implementation checksums: the hand-written token loop prun (KV/KvParse.v) and the
     # decision tree regenerated from the loop body (Gen/KVLoop_gen.v) under the semantics ploop (KV/KvLoop.v)
     imports = IMPORTS + [i for i in IMPORTS_LOOP if i not in IMPORTS]
-    models = [('correspondence:parse-token-exhaustive', 'prun', 'tok_shard_hash gen_parsecfg', 'tok_shard_cases gen_parsecfg',
+    pre = PRE + 'Definition long_words : list (list N) := ' + coq_list(coq_list(str(x) for x in w) for w in longw) + '.\n'
+    tree = 'gen_ptree gen_pfinal gen_parsecfg'
+    models = [('correspondence:parse-token-exhaustive', 'prun',
+               lambda b, f, n: f'tok_shard_hash gen_parsecfg {b} {f} {n}' if n != 'long' else
+               f'sum_hash (map (tok_case_hash gen_parsecfg {b} {f}) long_words)',
+               lambda b, f, n: f'tok_shard_cases gen_parsecfg {b} {f} {n}' if n != 'long' else
+               f'map (tok_case gen_parsecfg {b} {f}) long_words',
                'exhaustive token-level correspondence (KV/KvParse.v vs Keyvalues.parse on a scripted tokenizer)'),
               ('correspondence:parse-token-exhaustive-regenerated-loop', 'the regenerated loop tree (ploop)',
-               'tree_shard_hash gen_ptree gen_pfinal gen_parsecfg', 'tree_shard_cases gen_ptree gen_pfinal gen_parsecfg',
+               lambda b, f, n: f'tree_shard_hash {tree} {b} {f} {n}' if n != 'long' else
+               f'sum_hash (map (fun w => hfin (hash_list (tree_case {tree} {b} {f} w))) long_words)',
+               lambda b, f, n: f'tree_shard_cases {tree} {b} {f} {n}' if n != 'long' else
+               f'map (tree_case {tree} {b} {f}) long_words',
                'exhaustive token-level correspondence (regenerated loop tree vs Keyvalues.parse on a scripted tokenizer)')]
-    vals = ck.coq_eval(imports, [f'{fn} {b} {f} {n}' for _, _, fn, _, _ in models for b, f, n in shards], name='tokenum',
-                       preamble=PRE)
+    vals = ck.coq_eval(imports, [fn(b, f, n) for _, _, fn, _, _ in models for b, f, n in shards], name='tokenum',
+                       preamble=pre)
     if vals is None:
         for name, *_ in models:
             ck.obligation(name, False, 'model could not be evaluated')
@@ -784,13 +868,13 @@ def corr_tokens(ck: Ck) -> None:
         if bad:
             # locate one disagreement: literal model results for the first bad shard
             b, f, n = bad[0]
-            lits = ck.coq_eval(imports, [f'{cases_fn} {b} {f} {n}'], name='tokenum_cases', preamble=PRE)
+            lits = ck.coq_eval(imports, [cases_fn(b, f, n)], name='tokenum_cases', preamble=pre)
             if lits is not None:
                 model = {}
                 for m in _re.finditer(r'\[([0-9; ]*)\]', lits[0][1:-1]):
                     xs = [int(x) for x in m.group(1).split(';') if x.strip()]
                     model[tuple(xs[3:3 + xs[2]])] = xs[3 + xs[2]:]
-                for w in words(n):
+                for w in words_of(n):
                     r = scripted_parse(w, b, f)
                     if model.get(tuple(w)) != enc_result(r):
                         detail = (f'; first disagreement: options {bits_opts(b)} ending {"error" if f else "EOF"} tokens '
@@ -802,8 +886,9 @@ def corr_tokens(ck: Ck) -> None:
                         break
             ck.tie_broken.append(tie)
         ck.obligation(name, not bad,
-                      f'{nwords} cases = all token strings over 9 symbols up to length {max(s_[2] for s_ in shards)} (every option '
-                      f'vector up to length {min(s_[2] for s_ in shards)}) in {len(shards)} (option vector, ending) shards, {what} '
+                      f'{nwords} cases = all token strings over 9 symbols up to length {max(lens)} (every option '
+                      f'vector up to length {min(lens)}) + {len(longw)} directed / generated token strings of length up to 24 under '
+                      f'every option vector, in {len(shards)} (option vector, ending) shards, {what} '
                       f'(vm_compute) vs Keyvalues.parse on a scripted tokenizer, checksum per shard: {len(bad)} shards differ' + detail)
 
 
@@ -1224,13 +1309,15 @@ def run(ck: Ck) -> None:
     ok_t = ck.translate('KVSer_gen', c01_kvser.translate)
     side = ck.extra.get('translated', {}).get('KVSer_gen', {})
     # the constant tables of the C03 tokenizer model (Text/TokGen.v over Gen/EscTables_gen.v, C02's translator): the
-    # refinement theorem kv_lexer_refines_tokenizer is instantiated for them
-    ok_t = ck.translate('EscTables_gen', c02_tables.translate) and ok_t
+    # refinement theorem kv_lexer_refines_tokenizer is instantiated for them.  When that translator fails closed (it is
+    # another property's, and stricter about the spelling of escape_text than translate/c01_kvser.py), everything that
+    # does not need its tables is still built and evaluated, so that C01's own named obligations point at the site.
+    ok_esc = ck.translate('EscTables_gen', c02_tables.translate)
     # the token loop of Keyvalues.parse as a decision tree (symbolic execution of the loop body, path by path)
     ok_t = ck.translate('KVLoop_gen', c01_kvloop.translate) and ok_t
     # KV/KvEnum.vo is used by the correspondences only (no theorem depends on it): name it explicitly
-    built = ok_t and ck.build(['Gen/KVSer_gen.vo', 'Gen/EscTables_gen.vo', 'Gen/KVLoop_gen.vo', 'Text/TokGen.vo', 'KV/KvEnum.vo',
-                               'KV/KvLoopEnum.vo', 'Props/C01.vo'])
+    built = ok_t and ck.build(['Gen/KVSer_gen.vo', 'Gen/KVLoop_gen.vo'] + (['Gen/EscTables_gen.vo', 'Text/TokGen.vo'] if ok_esc else [])
+                              + ['KV/KvEnum.vo', 'KV/KvLoopEnum.vo', 'Props/C01.vo'])
     if built:
         ck.theorems('Props/C01.v')
         noraw = '(fun t => forallb (fun p => match p with PRaw _ | POther => false | _ => true end) t)'
@@ -1286,12 +1373,13 @@ def run(ck: Ck) -> None:
             f'parse_loop_tree_runs_like_token_loop_model_on_all_token_strings_up_to_length_{ck.budget(3, 4)}':
                 f'tree_agrees_upto gen_ptree gen_pfinal gen_parsecfg {ck.budget(3, 4)}',
         })
-        inst.update(ck.instance_obligations(IMPORTS_REFINE, {
+        if ok_esc:
+          inst.update(ck.instance_obligations(IMPORTS_REFINE, {
             'tokenizer_model_escape_table_equals_kv_lexer_table': 'esc_tables_match gen_tables gen_escfg',
             'tokenizer_model_BARE_DISALLOWED_equals_kv_lexer_set': 'bare_tables_match gen_tables',
             'tokenizer_model_operators_are_brace_open_close_equals_comma': 'ops_match (Str.operators gen_tables)',
             'tables_match(premise of parse_any_delivery)': 'tables_match gen_tables gen_escfg',
-        }, name='inst_refine'))
+          }, name='inst_refine'))
         if not all(inst.values()):
             ck.tie_broken.append('instance obligations over Gen/KVSer_gen.v / Gen/KVLoop_gen.v: ' + ', '.join(k for k, v in inst.items() if not v))
         stage['build+theorems+instances'] = round(time.time() - t_stage, 1)
@@ -1310,7 +1398,8 @@ def run(ck: Ck) -> None:
         corr_tokens(ck)
         stage['token-exhaustive'] = round(time.time() - t_stage, 1)
         t_stage = time.time()
-        corr_chunked(ck)
+        if ok_esc:
+            corr_chunked(ck)
         stage['chunked'] = round(time.time() - t_stage, 1)
     t_stage = time.time()
     search(ck)
